@@ -26,8 +26,10 @@ DEV_ASSUMPTION = (
 HOOK_COMMITS = ["51e6703"]
 
 NA_GLUE = ("the deciding mechanism lives in MultiRecordLog / RollingReader / RollingWriter / Directory over std::fs, std::path, "
-           "core::fmt, HashMap and BTreeSet; symbolic execution of those std bodies does not terminate under CBMC in this "
-           "sandbox (DESIGN.md section 3, probes B1-B7) and replacing them would verify a re-hosted copy, not the repository")
+           "core::fmt and HashMap; symbolic execution of those std bodies does not terminate under CBMC in this sandbox "
+           "(DESIGN.md section 3, probes B1-B7; HashMap re-probed with fixed hash keys in the build phase, B21; the replay loop "
+           "additionally forks on a discriminant CBMC cannot fold, B17/B18) and replacing them would verify a re-hosted copy, "
+           "not the repository. Independent seeded changes in this code are not detected by any check (DESIGN.md section 7)")
 
 NOT_APPLICABLE = {
     "C01": "restart == replay of the WAL by open_with_prefs over files, roll-over and GC: " + NA_GLUE,
